@@ -213,9 +213,63 @@ def r7(ctx, facts):
         r.fail("drop-notifies-orphaner", "Drop for OrphanhoodNotifier not found")
 
 
+def r8(ctx, facts):
+    r = ctx.rule("R8", "stream-id bitmap: new / allocate / free agree on the word width and cover exactly the 32768 ids", floor=4)
+    import re as _re
+    SS = C + "StreamIdSet::"
+    nb, ab, fb = facts.one("^" + _re.escape(SS) + "new$"), facts.one("^" + _re.escape(SS) + "allocate$"), facts.one("^" + _re.escape(SS) + "free$")
+    widths = set()
+    for b in (ab, fb):
+        for l in range(len(b.locals)):
+            m = _re.search(r"\[u(\d+)\]", b.local_ty(l) or "")
+            if m:
+                widths.add(int(m.group(1)))
+    if len(widths) != 1:
+        raise AnchorLost("StreamIdSet: cannot read the bitmap word type (%s)" % sorted(widths))
+    W = widths.pop()
+
+    def bin_consts(b, ops):
+        out = []
+        for bb in b.live_blocks:
+            for st in b.stmts(bb):
+                if st[0] == "A" and st[2][0] == "bin" and any(st[2][1].startswith(o) for o in ops):
+                    for o in (st[2][2], st[2][3]):
+                        if o[0] == "k" and o[1] == "int":
+                            out.append(int(o[3]))
+        return out
+    mul = [v for v in bin_consts(ab, ("Mul",)) if v > 1]
+    div = bin_consts(fb, ("Div",))
+    rem = bin_consts(fb, ("Rem",))
+    r.instance("allocate-scales-by-word-width", mul == [W] or (mul and all(v == W for v in mul)), "allocate computes id = off + block * %s; the bitmap words have %d bits" % (mul, W), ab.span)
+    r.instance("free-divides-by-word-width", bool(div) and all(v == W for v in div), "free computes block = id / %s; the bitmap words have %d bits" % (div, W), fb.span)
+    r.instance("free-offset-modulo-word-width", bool(rem) and all(v == W for v in rem), "free computes off = id %% %s; the bitmap words have %d bits (a different modulus releases another request's id)" % (rem, W), fb.span)
+    sizes = [v for v in int_consts_of(nb) if v >= 64]
+    r.instance("bitmap-covers-id-space", any(v * W == 32768 for v in sizes), "new() allocates %s words of %d bits; 32768 ids need %d" % (sizes, W, 32768 // W), nb.span)
+
+
+def int_consts_of(b):
+    out = []
+
+    def scan(x):
+        if isinstance(x, list):
+            if len(x) >= 4 and x[0] == "k" and x[1] == "int":
+                try:
+                    out.append(int(x[3]))
+                except ValueError:
+                    pass
+                return
+            for y in x:
+                scan(y)
+    for bb in b.live_blocks:
+        for st in b.stmts(bb):
+            scan(st)
+        scan(b.term(bb))
+    return out
+
+
 def check(ctx):
     facts = inline_view(ctx.facts("default"))
-    for fn in (r1_r2, r3_r4, r5, r6, r7):
+    for fn in (r1_r2, r3_r4, r5, r6, r7, r8):
         try:
             fn(ctx, facts)
         except AnchorLost as ex:
